@@ -24,6 +24,40 @@ func runC13(c *Ctx) {
 	c.checkCompress()
 }
 
+// tableStringValues: v is a lookup in a package-level map of package align whose initialiser is a
+// literal with constant string values; returns those values.
+func (c *Ctx) tableStringValues(v ssa.Value) ([]string, bool) {
+	lk, ok := v.(*ssa.Lookup)
+	if !ok {
+		return nil, false
+	}
+	ld, ok := lk.X.(*ssa.UnOp)
+	if !ok {
+		return nil, false
+	}
+	g, ok := ld.X.(*ssa.Global)
+	if !ok {
+		return nil, false
+	}
+	t, err := findTable(c.P.Pkg("align"), g.Name())
+	if err != nil {
+		return nil, false
+	}
+	kvs, ok := t.Val.([]kv)
+	if !ok || len(kvs) == 0 {
+		return nil, false
+	}
+	var out []string
+	for _, e := range kvs {
+		s, ok := cStr(e.V)
+		if !ok {
+			return nil, false
+		}
+		out = append(out, s)
+	}
+	return out, true
+}
+
 func (c *Ctx) checkDeduplicate() {
 	L := c.L
 	L.Rule("dedup-fold", "the comparison key is strings.ReplaceAll(row, wildcard, GAP) of the row's own residues (or the row itself)")
@@ -95,6 +129,21 @@ func (c *Ctx) checkDeduplicate() {
 			}
 			if sc, ok := cStr(constOf(lf)); ok {
 				froms = append(froms, sc)
+			} else if ex, isEx := lf.(*ssa.Extract); isEx && ex.Index == 0 {
+				// a value looked up in a package-level table of the wildcards, keyed by the alphabet
+				vals, okT := c.tableStringValues(ex.Tuple)
+				if okT {
+					froms = append(froms, vals...)
+				} else {
+					okLeaves = false
+				}
+			} else if lk, isLk := lf.(*ssa.Lookup); isLk {
+				vals, okT := c.tableStringValues(lk)
+				if okT {
+					froms = append(froms, vals...)
+				} else {
+					okLeaves = false
+				}
 			} else if cv, isCv := lf.(*ssa.Convert); isCv {
 				if k, ok := constInt(cv.X); ok {
 					froms = append(froms, string(rune(k)))
